@@ -21,6 +21,7 @@
  *   sizes <n> <s1> .. <sn>        message (chunk) sizes, cycled per sender
  *   pace <us>                     pause of a receiver between two units
  *   con <k>                       relayed connection k: c connects, s accepts
+ *   con1 <k>                      only c connects (to the relay); con <k> completes the connection later
  *   snd <k> <c|s> lv <permille>   send until the bytes in flight in that direction reach
  *                                 permille/1000 of the measured pipeline capacity (1000: until EAGAIN)
  *   snd <k> <c|s> n <count>       send count units (stops at EAGAIN)
@@ -300,6 +301,27 @@ static void end_reset(struct end *e)
     memset(e, 0, sizeof(*e));
 }
 
+/* con1 <k>: only the client's half: it connects to the relay, which then connects to the server; the server
+   application does not accept yet (con <k> completes the connection later).  Traffic of the other relayed connections
+   must keep flowing meanwhile: the relay serves its connections independently */
+static struct xcm_socket *pending_c[MAXK + 1];
+
+static void do_con1(int k)
+{
+    if (k < 1 || k > MAXK || used[k] || pending_c[k])
+	die("line con1 %d", k);
+    struct xcm_attr_map *attrs = nb_attrs();
+    pending_c[k] = xcm_connect_a(saddr, attrs);
+    xcm_attr_map_destroy(attrs);
+    for (int i = 0; i < 20 && pending_c[k]; i++) {
+	if (xcm_finish(pending_c[k]) < 0 && conn_err(errno)) {
+	    xcm_close(pending_c[k]);
+	    pending_c[k] = NULL;
+	}
+	nap(2000);
+    }
+}
+
 static void do_con(int k)
 {
     if (k < 1 || k > MAXK || used[k])
@@ -307,7 +329,8 @@ static void do_con(int k)
     struct xcm_attr_map *attrs = nb_attrs();
     double t0 = now_ms();
     double limit = relay_ready ? 15000 : 30000;
-    struct xcm_socket *c = NULL, *s = NULL;
+    struct xcm_socket *c = pending_c[k], *s = NULL;
+    pending_c[k] = NULL;
     int err = 0;
     for (;;) {
 	if (c == NULL) {
@@ -714,6 +737,10 @@ static void do_cls(int k, int x)
 static void end_exec(void)
 {
     for (int k = 1; k <= MAXK; k++) {
+	if (pending_c[k] != NULL) {
+	    xcm_close(pending_c[k]);
+	    pending_c[k] = NULL;
+	}
 	if (!used[k])
 	    continue;
 	for (int x = 0; x < 2; x++) {
@@ -798,6 +825,8 @@ int main(int argc, char **argv)
 	    pace_us = atoi(tok[1]);
 	else if (strcmp(op, "con") == 0 && nt == 2)
 	    do_con(atoi(tok[1]));
+	else if (strcmp(op, "con1") == 0 && nt == 2)
+	    do_con1(atoi(tok[1]));
 	else if (strcmp(op, "snd") == 0 && nt == 5) {
 	    int k = atoi(tok[1]), x = side_of(tok[2]);
 	    if (k < 1 || k > MAXK)
